@@ -105,25 +105,59 @@ func AcceptedLength(regexString string) (AcceptedLengths, error) {
 	if err != nil {
 		return AcceptedLengths{}, err
 	}
-	cache := map[uint32]AcceptedLengths{}
-	evaluate := (func(entry uint32, seen []uint32) (AcceptedLengths, error))(nil)
-	evaluate = func(entry uint32, seen []uint32) (AcceptedLengths, error) {
+	// MinLength is the length of a shortest path through the program to a match
+	// instruction: breadth first search, one level per consumed byte.
+	// The memoised walk below cannot be used for the minimum: an instruction that is
+	// reached again while its loop is being evaluated is cached as "unbounded", which
+	// is only true for the maximum (x?a+ got MinLength 2).
+	minLength := uint(math.MaxUint)
+	visited := make([]bool, len(p.Inst))
+	level := []uint32{uint32(p.Start)}
+search:
+	for n := uint(0); len(level) != 0; n++ {
+		next := []uint32(nil)
+		for len(level) != 0 {
+			pos := level[len(level)-1]
+			level = level[:len(level)-1]
+			if visited[pos] {
+				continue
+			}
+			visited[pos] = true
+			i := p.Inst[pos]
+			switch i.Op {
+			case syntax.InstRune1, syntax.InstRune, syntax.InstRuneAny, syntax.InstRuneAnyNotNL:
+				next = append(next, i.Out)
+			case syntax.InstNop, syntax.InstEmptyWidth, syntax.InstCapture:
+				level = append(level, i.Out)
+			case syntax.InstAlt, syntax.InstAltMatch:
+				level = append(level, i.Out, i.Arg)
+			case syntax.InstMatch:
+				minLength = n
+				break search
+			case syntax.InstFail:
+			default:
+				return AcceptedLengths{}, fmt.Errorf("unsupported regex op %q", i.String())
+			}
+		}
+		level = next
+	}
+
+	// MaxLength is the length of a longest path, unbounded as soon as a loop is reachable.
+	cache := map[uint32]uint{}
+	evaluate := (func(entry uint32, seen []uint32) (uint, error))(nil)
+	evaluate = func(entry uint32, seen []uint32) (uint, error) {
 		if r, ok := cache[entry]; ok {
 			return r, nil
 		}
-		r := AcceptedLengths{}
+		r := uint(0)
 		pos := entry
 		for {
 			i := p.Inst[pos]
 			switch i.Op {
 			case syntax.InstRune1, syntax.InstRune, syntax.InstRuneAny, syntax.InstRuneAnyNotNL:
-				inc := func(v *uint) {
-					if *v != math.MaxUint {
-						(*v)++
-					}
+				if r != math.MaxUint {
+					r++
 				}
-				inc(&r.MinLength)
-				inc(&r.MaxLength)
 				fallthrough
 			case syntax.InstNop, syntax.InstEmptyWidth, syntax.InstCapture:
 				pos = i.Out
@@ -131,24 +165,21 @@ func AcceptedLength(regexString string) (AcceptedLengths, error) {
 			case syntax.InstAlt, syntax.InstAltMatch:
 				for _, s := range seen {
 					if s == pos {
-						cache[entry] = AcceptedLengths{math.MaxUint64, math.MaxUint64}
-						return AcceptedLengths{math.MaxUint64, math.MaxUint64}, nil
+						cache[entry] = math.MaxUint
+						return math.MaxUint, nil
 					}
 				}
 				seen = append(seen, pos)
 				r1, err := evaluate(i.Out, seen)
 				if err != nil {
-					return AcceptedLengths{}, err
+					return 0, err
 				}
 				r2, err := evaluate(i.Arg, seen)
 				if err != nil {
-					return AcceptedLengths{}, err
+					return 0, err
 				}
-				if r1.MinLength > r2.MinLength {
-					r1.MinLength, r2.MinLength = r2.MinLength, r1.MinLength
-				}
-				if r1.MaxLength < r2.MaxLength {
-					r1.MaxLength, r2.MaxLength = r2.MaxLength, r1.MaxLength
+				if r1 < r2 {
+					r1 = r2
 				}
 				add := func(a, b uint) uint {
 					c := ((a >> 1) + (b >> 1) + (a & b & 1)) >> (bits.UintSize - 1)
@@ -157,18 +188,21 @@ func AcceptedLength(regexString string) (AcceptedLengths, error) {
 					}
 					return a + b
 				}
-				r.MinLength = add(r.MinLength, r1.MinLength)
-				r.MaxLength = add(r.MaxLength, r1.MaxLength)
+				r = add(r, r1)
 				fallthrough
 			case syntax.InstMatch:
 				cache[entry] = r
 				return r, nil
 			case syntax.InstFail:
-				cache[entry] = AcceptedLengths{math.MaxUint64, math.MaxUint64}
-				return AcceptedLengths{math.MaxUint64, math.MaxUint64}, nil
+				cache[entry] = math.MaxUint
+				return math.MaxUint, nil
 			}
-			return AcceptedLengths{}, fmt.Errorf("unsupported regex op %q", i.String())
+			return 0, fmt.Errorf("unsupported regex op %q", i.String())
 		}
 	}
-	return evaluate(uint32(p.Start), nil)
+	maxLength, err := evaluate(uint32(p.Start), nil)
+	if err != nil {
+		return AcceptedLengths{}, err
+	}
+	return AcceptedLengths{MinLength: minLength, MaxLength: maxLength}, nil
 }
